@@ -103,7 +103,7 @@ func VerifC07Untouched() {
 	deco := verifChoice("decoratedNode", c07Nodes)
 	v := verifStrN("v", 1, "49")
 	i := 0
-	which := verifChoice("update", 11)
+	which := verifChoice("update", 15)
 	c07KeyS = "s"
 	var u c07Update
 	// positions: root.Content = [ka, a, kc, c, ks, s]; a.Content = [kb, b]; c.Content = [c0, c1]
@@ -134,6 +134,17 @@ func VerifC07Untouched() {
 		c07KeyS = verifStrN("keyOfS", 1, "*z")
 		verifAssume(!verifEqStr(c07KeyS, "a") && !verifEqStr(c07KeyS, "c"))
 		u = c07Update{name: "delete-selected-entry", text: "del(.[] | select(tag == \"!!int\"))", skipBefore: [][]int{{4}, {5}}}
+	case 11: // an index past the end: the gap is padded with nulls; the sequence itself and its old elements stay as written
+		i = verifConcreteInt(verifIntRange("i", 2, 4), 2, 4)
+		u = c07Update{name: "assign-past-the-end", text: ".c[7770001] = 7770009", skipAfter: [][]int{{3, 2}, {3, 3}, {3, 4}}}
+	case 12:
+		i = verifConcreteInt(verifIntRange("i", 2, 4), 2, 4)
+		u = c07Update{name: "update-past-the-end", text: ".c[7770001] |= 7770009", skipAfter: [][]int{{3, 2}, {3, 3}, {3, 4}}}
+	case 13: // missing intermediate maps are created under an existing one
+		u = c07Update{name: "create-nested-path", text: ".a.n.m = 7770009", skipAfter: [][]int{{1, 2}, {1, 3}}}
+	case 14: // a key of an element that does not exist yet
+		i = verifConcreteInt(verifIntRange("i", 2, 3), 2, 3)
+		u = c07Update{name: "create-key-in-new-element", text: ".c[7770001].k = 7770009", skipAfter: [][]int{{3, 2}, {3, 3}}}
 	}
 	d := c07DrawDeco()
 	doc := c07Doc(x, deco, d)
